@@ -167,13 +167,13 @@ func (securityAssociation *SecurityAssociation) Unmarshal(b []byte) error {
 		spiSize := b[6]
 		if spiSize > 0 {
 			// bounds checking
-			if len(b) < int(8+spiSize) {
+			if len(b) < 8+int(spiSize) {
 				return errors.Errorf("Proposal: No sufficient bytes for unmarshalling SPI of proposal")
 			}
-			proposal.SPI = append(proposal.SPI, b[8:8+spiSize]...)
+			proposal.SPI = append(proposal.SPI, b[8:8+int(spiSize)]...)
 		}
 
-		transformData = b[8+spiSize : proposalLength]
+		transformData = b[8+int(spiSize) : proposalLength]
 
 		for len(transformData) > 0 {
 			// bounds checking
